@@ -41,7 +41,7 @@ from .util import *
 
 __all__ = ['Controller', 'ExitInformation', 'EXIT_SLOW_WARNING', 'EXIT_MAXFUN_WARNING', 'EXIT_SUCCESS',
            'EXIT_INPUT_ERROR', 'EXIT_TR_INCREASE_ERROR', 'EXIT_LINALG_ERROR', 'EXIT_FALSE_SUCCESS_WARNING',
-           'EXIT_AUTO_DETECT_RESTART_WARNING', 'EXIT_EVAL_ERROR']
+           'EXIT_AUTO_DETECT_RESTART_WARNING', 'EXIT_EVAL_ERROR', 'EXIT_TR_INCREASE_WARNING']
 
 module_logger = logging.getLogger(__name__) 
 
